@@ -14,9 +14,76 @@ import XsdataModel.Proofs.C09Ws
 import XsdataModel.Proofs.C09Data
 import XsdataModel.Proofs.C09Ns
 import XsdataModel.Proofs.C09Xsi
+import XsdataModel.Proofs.C09Attrs
 
 namespace Props.C09
 open Py Xs.Bind Proofs.C09
+
+/-! ## 1. attribute order -/
+
+/-- side conditions on the class: attribute entries with different qualified names belong to
+different fields (`attrNamesOk`, true of every exported `XmlMeta`), no `Attributes` field and no
+wildcard field.  (With an `Attributes` / `AnyElement.attributes` dictionary the *insertion order*
+of the dictionary follows the document; Python's `==` ignores it, the model's association list
+does not — see `attrs_dict_order_witness` — so those classes are excluded here and left to the
+correspondence check, which compares dictionaries as sets of items in its oracle.) -/
+def attrOrderOk (m : XmlMeta) : Bool := attrNamesOk m && m.anyAttributes.isEmpty && m.wildcards.isEmpty
+
+/-- **attr_order_invariant**: an element node of such a class gives the same result for every
+permutation of an attribute list with pairwise different names: both fail, or both succeed with
+the same objects and the same number of warnings.  (Which *error* is reported may depend on the
+order when two attributes are both in error, hence `toOption`.) -/
+theorem attr_order_invariant (e : BEnv) (Γ : Ctx) (cfg : ParserConfig) (m : XmlMeta) (hm : attrOrderOk m = true)
+    (ats₁ ats₂ : List (QN × Str)) (hp : ats₁.Perm ats₂) (hn : (ats₁.map (·.1)).Nodup) (ns d xt xn) (t : Tree) :
+    (parseNode e Γ cfg (.element m ats₁ ns d xt xn) t).toOption =
+    (parseNode e Γ cfg (.element m ats₂ ns d xt xn) t).toOption := by
+  simp only [attrOrderOk, Bool.and_eq_true, List.isEmpty_iff] at hm
+  exact parseNode_attr_perm e Γ cfg m hm.1.1 hm.1.2 hm.2 ats₁ ats₂ hp hn ns d xt xn t
+
+/-- every class of the universe satisfies `attrOrderOk` -/
+def ctxAttrOrderOk (Γ : Ctx) : Bool := Γ.classes.all fun ci => ci.metas.all fun pm => attrOrderOk pm.2
+
+/-- **attr_order_invariant_root**: the same for a whole document (`NodeParser.parse`): the
+root element's attributes may come in any order (xsi:type / xsi:nil are looked up by name). -/
+theorem attr_order_invariant_root (e : BEnv) (Γ : Ctx) (cfg : ParserConfig) (hΓ : ctxAttrOrderOk Γ = true) (c : ClassId)
+    (ats₁ ats₂ : List (QN × Str)) (hp : ats₁.Perm ats₂) (hn : (ats₁.map (·.1)).Nodup) (q n t ch tl) :
+    (parseRoot e Γ cfg c (.node q ats₁ n t ch tl)).toOption = (parseRoot e Γ cfg c (.node q ats₂ n t ch tl)).toOption := by
+  have hx : xsiTypeOf e ats₁ n = xsiTypeOf e ats₂ n := by
+    unfold xsiTypeOf; rw [find?_key_perm hp xsiType hn]
+  have hnil : xsiNilOf ats₁ = xsiNilOf ats₂ := by
+    unfold xsiNilOf; rw [find?_key_perm hp xsiNil hn]
+  -- the element node does not look at the attribute list of the tree, only at its own copy
+  have htree : ∀ nd, parseNode e Γ cfg nd (.node q ats₁ n t ch tl) = parseNode e Γ cfg nd (.node q ats₂ n t ch tl) := by
+    intro nd
+    cases nd <;> simp only [parseNode]
+  rw [parseRoot_unfold, parseRoot_unfold, hx, hnil]
+  apply toOption_bind_right
+  intro xt
+  apply toOption_bind_right'
+  intro m hf
+  apply toOption_bind_left
+  rw [htree]
+  have hm := fetch_all attrOrderOk Γ hΓ c none xt m hf
+  exact attr_order_invariant e Γ cfg m hm ats₁ ats₂ hp hn n _ _ _ _
+
+-- non-vacuity: class `Plain` (two attributes, two elements); the two spellings of Data.plainDoc
+example : attrOrderOk Data.plainMeta = true := by decide
+example : [("a".toList, "7".toList), ("b".toList, "v".toList)].Perm [("b".toList, "v".toList), ("a".toList, "7".toList)] :=
+  List.Perm.swap _ _ _
+example : ([("a".toList, "7".toList), ("b".toList, "v".toList)].map (·.1)).Nodup := by decide
+example : Data.primOf (parseRoot Data.benv Data.ctx {} "Plain".toList Data.plainDoc) "a" = some (.int 7) := by decide
+
+/-- the order of an `Attributes` dictionary is visible in the model's association list (and in
+`dict` iteration order in Python), although the two dictionaries are equal as Python objects:
+`<Root k1="v" k2="w"/>` vs `<Root k2="w" k1="v"/>` -/
+theorem attrs_dict_order_witness :
+    Data.attrsOf (parseRoot Data.benv Data.ctx {} "Root".toList
+      (.node "Root".toList [("k1".toList, "v".toList), ("k2".toList, "w".toList)] [] none [] none)) "attrs"
+      = some [("k1".toList, "v".toList), ("k2".toList, "w".toList)] ∧
+    Data.attrsOf (parseRoot Data.benv Data.ctx {} "Root".toList
+      (.node "Root".toList [("k2".toList, "w".toList), ("k1".toList, "v".toList)] [] none [] none)) "attrs"
+      = some [("k2".toList, "w".toList), ("k1".toList, "v".toList)] := by
+  decide
 
 /-! ## 2. ignorable white space -/
 
